@@ -602,7 +602,7 @@ package argmapper
 //@   loop 1 invariant forall(i, int, imp(0 <= i && i < idx1 && typeis(vs[i], *typedOutputVertex), as(vs[i], *typedOutputVertex).Value == vfield(lastStruct, f.output.typedValues[as(vs[i], *typedOutputVertex).Type].index)))
 
 //@ func newCallState
-//@   ensures result != nil && fresh(result) && result.NamedValue != nil && result.TypedValue != nil && result.InputSet != nil && fresh(result.InputSet) && !valid(result.Value) && forall(k, any, !has(result.InputSet, k))
+//@   ensures result != nil && fresh(result) && result.NamedValue != nil && result.TypedValue != nil && result.InputSet != nil && fresh(result.InputSet) && fresh(result.NamedValue) && fresh(result.TypedValue) && !valid(result.Value) && forall(k, any, !has(result.InputSet, k))
 //@   assigns callState, map[string]reflect.Value, map[reflect.Type]reflect.Value, map[interface{}]graph.Vertex
 //@   modifies nothing
 
